@@ -112,6 +112,98 @@ Section TupRing.
     rewrite dotb_scale_r. f_equal. apply IHm.
   Qed.
 
+  (** ---- conjugate transpose:  A^H y = sum_i y_i conj(row_i)  (no transposed matrix is
+      built), and the adjoint identity for the sesquilinear product [dotc] ---- *)
+  Fixpoint mvH (m n : nat) : mat m n -> tup K m -> tup K n :=
+    match m with
+    | O => fun _ _ => tzero n
+    | S k => fun A y => tadd n (tscale n (fst y) (tmap conj n (fst A))) (mvH k n (snd A) (snd y))
+    end.
+
+  Hypothesis conj_add : forall a b, conj (kadd a b) = kadd (conj a) (conj b).
+  Hypothesis conj_mul : forall a b, conj (kmul a b) = kmul (conj a) (conj b).
+  Hypothesis conj_sub : forall a b, conj (ksub a b) = ksub (conj a) (conj b).
+  Hypothesis conj_zero : conj k0 = k0.
+  Hypothesis conj_invol : forall a, conj (conj a) = a.
+
+  Lemma dotb_comm n (u v : tup K n) : dotb n u v = dotb n v u.
+  Proof. induction n; cbn; auto. destruct u, v; cbn. rewrite IHn. ring. Qed.
+
+  Lemma dotb_add_l n (u v a : tup K n) : dotb n (tadd n u v) a = kadd (dotb n u a) (dotb n v a).
+  Proof. rewrite dotb_comm, dotb_add_r, (dotb_comm n a u), (dotb_comm n a v). reflexivity. Qed.
+
+  Lemma dotb_zero_r n (u : tup K n) : dotb n u (tzero n) = k0.
+  Proof. unfold tzero. induction n; cbn; auto. destruct u; cbn. rewrite IHn. ring. Qed.
+
+  Lemma dotb_conj n (u v : tup K n) : dotb n (tmap conj n u) (tmap conj n v) = conj (dotb n u v).
+  Proof.
+    induction n; cbn; [symmetry; apply conj_zero|].
+    destruct u, v; cbn. rewrite IHn, conj_add, conj_mul. reflexivity.
+  Qed.
+
+  Lemma tmap_conj_add n (u v : tup K n) : tmap conj n (tadd n u v) = tadd n (tmap conj n u) (tmap conj n v).
+  Proof. induction n; cbn; auto. destruct u, v; cbn. rewrite conj_add, IHn. reflexivity. Qed.
+
+  Lemma tmap_conj_sub n (u v : tup K n) : tmap conj n (tsub n u v) = tsub n (tmap conj n u) (tmap conj n v).
+  Proof. induction n; cbn; auto. destruct u, v; cbn. rewrite conj_sub, IHn. reflexivity. Qed.
+
+  Lemma tmap_conj_invol n (u : tup K n) : tmap conj n (tmap conj n u) = u.
+  Proof. induction n; cbn. - destruct u; auto. - destruct u; cbn. rewrite conj_invol, IHn. reflexivity. Qed.
+
+  (** <u, v> = conj <v, u> *)
+  Lemma dotc_conj_sym n (u v : tup K n) : dotc n u v = conj (dotc n v u).
+  Proof.
+    unfold dotc. rewrite <- dotb_conj, tmap_conj_invol. apply dotb_comm.
+  Qed.
+
+  Lemma dotc_add_l n (u v w : tup K n) : dotc n (tadd n u v) w = kadd (dotc n u w) (dotc n v w).
+  Proof. unfold dotc. rewrite tmap_conj_add. apply dotb_add_l. Qed.
+
+  Lemma dotc_sub_r n (h u v : tup K n) : dotc n h (tsub n u v) = ksub (dotc n h u) (dotc n h v).
+  Proof. unfold dotc. apply dotb_sub_r. Qed.
+
+  Lemma dotc_scale_l n c (u w : tup K n) : dotc n (tscale n c u) w = kmul (conj c) (dotc n u w).
+  Proof.
+    unfold dotc, tscale. induction n; cbn. - ring. - destruct u, w; cbn. rewrite IHn, conj_mul. ring.
+  Qed.
+
+  (** the adjoint identity:  <A x, y> = <x, A^H y>  for every matrix, real or complex *)
+  Theorem dotc_mvH m n (A : mat m n) (x : tup K n) (y : tup K m) :
+    dotc m (mv m n A x) y = dotc n x (mvH m n A y).
+  Proof.
+    unfold dotc, mv. revert A y. induction m; intros A y.
+    - cbn [tmap mvH dotb]. rewrite dotb_zero_r. reflexivity.
+    - destruct A as [row A'], y as [y0 y']. cbn [tmap mvH dotb fst snd].
+      rewrite dotb_add_r, dotb_scale_r, dotb_conj, <- IHm, (dotb_comm n x row). ring.
+  Qed.
+
+  (** module laws used by the least-squares instance *)
+  Lemma tsub_split n (u v b : tup K n) : tsub n u b = tadd n (tsub n v b) (tsub n u v).
+  Proof. induction n; cbn; auto. destruct u, v, b; cbn. f_equal; [ring | apply IHn]. Qed.
+
+  Lemma tadd_tsub_l n (x h : tup K n) : tsub n (tadd n x h) x = h.
+  Proof. induction n; cbn. - destruct h; auto. - destruct x, h; cbn. f_equal; [ring | apply IHn]. Qed.
+
+  Lemma tsub_interchange n (a b c d : tup K n) :
+    tsub n (tadd n a b) (tadd n c d) = tadd n (tsub n a c) (tsub n b d).
+  Proof. induction n; cbn; auto. destruct a, b, c, d; cbn. f_equal; [ring | apply IHn]. Qed.
+
+  Lemma tscale_sub_l n (a b : K) (v : tup K n) :
+    tscale n (ksub a b) v = tsub n (tscale n a v) (tscale n b v).
+  Proof. unfold tscale. induction n; cbn; auto. destruct v; cbn. f_equal; [ring | apply IHn]. Qed.
+
+  Lemma tzero_sub n : tzero n = tsub n (tzero n) (tzero n).
+  Proof. unfold tzero. induction n; cbn; auto. f_equal; [ring | apply IHn]. Qed.
+
+  Lemma mvH_sub m n (A : mat m n) (u v : tup K m) :
+    mvH m n A (tsub m u v) = tsub n (mvH m n A u) (mvH m n A v).
+  Proof.
+    induction m; cbn [mvH tsub tmap2].
+    - apply tzero_sub.
+    - destruct A as [row A'], u as [u0 u'], v as [v0 v']; cbn [fst snd].
+      fold (tsub m u' v'). rewrite IHm, tscale_sub_l. symmetry. apply tsub_interchange.
+  Qed.
+
   (** conversions used by the case files *)
   Definition vec_of n (l : list K) : tup K n := of_list k0 n l.
   Definition mat_of m n (rows : list (list K)) : mat m n :=
